@@ -85,6 +85,8 @@ void vary_machine(Rng& r, Cfg& c) {
     if (r.chance(0.3)) { c.E0 = std::round(r.uniform(0.9e9, 1.8e9)); c.sE = std::round(r.uniform(3e-4, 7e-4) * 1e6) / 1e6; }
     if (r.chance(0.25)) c.VRF = std::round(r.uniform(0.7e6, 2e6));
     if (r.chance(0.2)) c.frev = std::round(r.uniform(2e6, 1.2e7));
+    if (r.chance(0.25)) c.fc = r.chance(0.3) ? 0 : std::round(r.loguniform(1e9, 1e12));        // shielding cut-off of the CSR spectrum (0: none)
+    if (c.wallcond > 0 && r.chance(0.4)) c.wallsusc = std::round(r.uniform(-0.5, 3) * 100) / 100;   // relative permeability 1+xi > 0
     if (r.chance(0.2)) { c.steps_per_rev = std::round(r.uniform(0.03, 0.4) * 1000) / 1000; if (derive(c).steps < 10) c.steps_per_rev = std::ceil(10.5 * derive(c).fs / derive(c).f_rev * 1000) / 1000; }
     // keep the run length in steps and dependent quantities meaningful
     Derived d = derive(c);
